@@ -378,22 +378,29 @@ def run_sliding(desc):
     for step in range(int(rng.randint(2, 8))):
         op = "fit" if step == 0 or rng.rand() < 0.2 else "partial_fit"
         if step > 0 and rng.rand() < 0.25:
-            # a window size changed through set_params takes effect with the next fit (which restarts the window)
+            # a window size changed through set_params applies to the next call: fit restarts the window, partial_fit keeps
+            # the most recent samples that fit into the new size
             w = [v for v in (1, 2, 4, None) if v != w][rng.randint(3)]
             swc.set_params(window_size=w)
             p0 = st.params_fp(swc)
             ops.append(("set_params", "window_size=%s" % w, 0))
-            op = "fit"
+            ref = collections.deque(ref, maxlen=w)
         X, y = _data(rng, "clf", n=int(rng.randint(1, 6)))
         sw = np.round(rng.rand(len(X)) + 0.2, 2) if use_w else None
         if use_w and mixed_w and rng.rand() < 0.4:
             sw = None          # a call without weights in a weighted history: the stored weights are dropped (count as one)
+        Xp, yp, swp = X.copy(), y.copy(), (None if sw is None else sw.copy())
         try:
             steps.begin()
             if sw is None:
-                getattr(swc, op)(X, y)
+                getattr(swc, op)(Xp, yp)
             else:
-                getattr(swc, op)(X, y, sample_weight=sw)
+                getattr(swc, op)(Xp, yp, sample_weight=swp)
+            # the caller reuses its chunk buffers: the window must hold copies
+            Xp[:] = 99.0
+            yp[:] = 0.0
+            if swp is not None:
+                swp[:] = 50.0
         except steps.StepBudgetExceeded as ex:
             viol.append({"component": "SlidingWindowClassifier", "kind": "step-budget-exceeded", "detail": str(ex), "trigger": "any"})
             break
